@@ -247,3 +247,7 @@ def run(ctx, rep):
     rule_orient(ctx, rep)
     rule_edges(ctx, rep)
     rule_map(ctx, rep)
+    # a node per *name*: the declaration graph's name->node maps must identify names the way the language does
+    from rules.c08 import rule_keys
+    rule_keys(ctx, rep, rid="R-C07-keys", files=("xform_toposort_declarations", "xform_resolve_late_bound_data_decl", "symbol_graph"), floor=3,
+              what="the declaration graphs map names to nodes case-insensitively, so a reference and its declaration always meet in one node: every name table of the graph modules")
